@@ -264,4 +264,10 @@ def createDisclosed (creds : List (String × CredI)) (ms : Messages) (stmts : Li
 def createReport (creds : List (String × CredI)) (stmts : List CStmt) : Option (List (String × List String)) :=
   if createOk creds stmts then (messagesOf creds stmts).map fun ms => createDisclosed creds ms stmts else none
 
+/-- statement ids in the order `create` appends statement-id markers to the main transcript: commitment,
+verifiable-encryption and encrypt-and-decrypt builders in predicate order, then the range builders -/
+def createMarkers (creds : List (String × CredI)) (stmts : List CStmt) : List String :=
+  ((stmts.filterMap (predProofOf creds)).filter fun p => AC.Verify.markerKind p.kind).map (·.id)
+    ++ (stmts.filterMap (rangeProofOf creds)).map (·.id)
+
 end AC.Create
